@@ -115,8 +115,13 @@ pub fn check_recovery(scratch: &mut Sut, snap: &[u8], model: &Model, held: &[Blo
         if !cover(&mut leaked, &tol.gets) {
             // signature of one specific, listed finding: whole bitfield rows of the huge frame that an
             // in-flight partial free is (re)filling for a split
-            let rows_of_split = all.len() % 64 == 0
-                && all.chunks(64).all(|c| c[0] % 64 == 0 && c[63] == c[0] + 63)
+            // (a frame of such a row may at the same time be named by an in-flight targeted allocation or free,
+            // which takes it out of `all`: judge row-wise, a row counts as whole if every frame of it is either
+            // unexpectedly allocated or named by an in-flight call)
+            let named = |f: usize| tol.get_ats.iter().any(|b| b.contains(f)) || tol.puts.iter().any(|b| b.contains(f));
+            let mut rows: Vec<usize> = all.iter().map(|f| f / 64).collect();
+            rows.dedup();
+            let rows_of_split = rows.iter().all(|r| (r * 64..r * 64 + 64).all(|f| all.binary_search(&f).is_ok() || named(f)))
                 && all.iter().all(|f| tol.puts.iter().any(|p| p.order < llfree::HUGE_ORDER && p.frame / llfree::HUGE_FRAMES == f / llfree::HUGE_FRAMES));
             out.push(format!(
                 "{}{n} free frame(s) untouched by any in-flight call are allocated after recovery (first: {first}; in-flight get orders {:?})",
